@@ -389,6 +389,35 @@ def runtime_contracts(chk):
                "structural", "exhaustive_finite", detail=lm)
 
 
+def local_macro_names_injective(chk):
+    """Two local macro names refer to one run-time binding exactly when their manglings are equal: local_macro_name (the variable
+    that holds a function-local macro, dotted names from a prefixed local require included) is injective on manglings.  All names up
+    to length 5 over an alphabet containing the characters its escaping uses."""
+    import itertools
+    import hy.macros as hmac
+    seen = {}
+    clash = None
+    n = 0
+    for k in range(1, 6):
+        for t in itertools.product("DN.pm", repeat=k):
+            name = "".join(t)
+            if name.startswith(".") or name.endswith(".") or ".." in name:
+                continue
+            n += 1
+            key = hmac.local_macro_name(name)
+            m = mangle(name)
+            if key in seen and seen[key] != m and clash is None:
+                clash = (seen[key], m, key)
+            seen.setdefault(key, m)
+            if not key.isidentifier() and clash is None:
+                clash = (name, "not an identifier", key)
+    chk.case(("local-macro-names", n))
+    chk.ob("runtime/local_macro_name is injective on manglings (names over D N . p m up to length 5)", clash is None, "structural",
+           "exhaustive_finite", detail=f"{n} names" if clash is None else f"{clash[0]!r} and {clash[1]!r} both map to {clash[2]!r}",
+           replay=None if clash is None else {"confirmed": True, "input": f"hy.macros.local_macro_name({clash[0]!r}) and ({clash[1]!r})",
+                                              "observed": clash[2]})
+
+
 def run(chk):
     # vacuity: the sentinel classes behave as declared under the live mangle
     decl_changed = {"plain": False, "hyphen": True, "punct": True, "qmark": True, "lead-hyphen": True, "lead-underscore": True,
@@ -396,6 +425,11 @@ def run(chk):
     ok = all((mangle(n) != n) == decl_changed[c] for c, n in NAMES.items())
     chk.ob("vacuity/sentinel name classes change (or not) under the live hy.mangle as declared", ok, "structural", "proved",
            detail=str({c: mangle(n) for c, n in NAMES.items()}))
+    dead = []
+    for label, builder, in_fn in constructs():
+        if check_construct(label, builder, in_fn, "plain", NAMES["plain"])[0] is None:
+            dead.append(label)
+    chk.ob("vacuity/every naming construct is accepted by the compiler for a plain name", not dead, "structural", "proved", detail=str(dead))
     for label, builder, in_fn in constructs():
         for cls, name in NAMES.items():
             if cls == "keyword" and ("parameter" in label or "target" in label or "name" in label or "capture" in label
@@ -410,6 +444,7 @@ def run(chk):
                 chk.ob(f"name/{label}/{cls}", okk, "structural", "proved", detail=detail,
                        replay=None if okk else replay_naming(builder, in_fn, name))
     runtime_contracts(chk)
+    local_macro_names_injective(chk)
     binding_identity(chk)
     chk.fn("hy/compiler.py::compile_symbol, compile_expression, _compile_collect", "hy/core/result_macros.py::compile_attribute_access, "
            "compile_arguments_set, compile_function_def, compile_class_expression, compile_import, compile_global_or_nonlocal, "
